@@ -8,26 +8,36 @@
    recomputed from total and used (resetDeviceFree), so it is a derived observable.  Removal
    subtracts the allocation stored for the key; the code subtracts the allocation the caller passes,
    which is the same one in every history considered here (the object's own annotation / cycle
-   state). VF allocations (Extension) are not modelled. *)
+   state).
+   VF allocations (DeviceAllocation.Extension.VirtualFunctions, nodeDevice.vfAllocations: type ->
+   minor -> set of bus ids) ride on the same ledger: the virtual functions of an object's group are
+   the "cpus" of its entry (global id type*100000 + minor*100 + index), so a VF is taken iff its
+   reference count is positive.  The code keeps a set, not a count; the two agree as long as a VF is
+   held by at most one object, which the allocator guarantees and the generator respects. *)
 From Coq Require Import List ZArith Bool.
 From Verif Require Import C19.Model C19.ModelRsv.
 Import ListNotations.
 Open Scope Z_scope.
 
 (* object uid: kind (0 pod, 1 reservation), node, allocation groups: device type -> [(minor, (a, b))] *)
-Record ddesc := mkDD { dd_kind : Z; dd_node : Z; dd_groups : list (Z * list (Z * (Z * Z))) }.
-Definition dd_default : ddesc := mkDD 0 0 [].
+(* dd_vfs: device type -> virtual functions of the object's allocation, coded minor*100 + index *)
+Record ddesc := mkDD { dd_kind : Z; dd_node : Z; dd_groups : list (Z * list (Z * (Z * Z))); dd_vfs : list (Z * list Z) }.
+Definition dd_default : ddesc := mkDD 0 0 [] [].
 Definition ddesc_of (ds : list ddesc) (uid : Z) : ddesc := nth (Z.to_nat (uid - 1)) ds dd_default.
 Definition dvalid (ds : list ddesc) (uid : Z) : bool := (1 <=? uid) && (uid <=? Z.of_nat (length ds)).
 
 Definition dkey (uid t : Z) : Z := uid * 10 + t.
 Definition dslot (t minor : Z) : Z := t * 1000 + minor.
-Definition dalloc (uid : Z) (g : Z * list (Z * (Z * Z))) : palloc :=
-  mkPA (dkey uid (fst g)) 0 [] (map (fun e => (dslot (fst g) (fst e), snd e)) (snd g)).
+Definition vfs_of (d : ddesc) (t : Z) : list Z :=
+  match find (fun x => fst x =? t) (dd_vfs d) with Some x => snd x | None => [] end.
+Definition gvf (t code : Z) : Z := t * 100000 + code.
+Definition gvfs (ds : list ddesc) (uid t : Z) : list Z := map (gvf t) (vfs_of (ddesc_of ds uid) t).
+Definition dalloc (ds : list ddesc) (uid : Z) (g : Z * list (Z * (Z * Z))) : palloc :=
+  mkPA (dkey uid (fst g)) 0 (gvfs ds uid (fst g)) (map (fun e => (dslot (fst g) (fst e), snd e)) (snd g)).
 
 (* updateCacheUsed(allocations, pod, add) *)
-Definition dev_add (st : nstate) (node uid : Z) (groups : list (Z * list (Z * (Z * Z)))) : nstate :=
-  fold_left (fun s g => add_pod no_topo s node (dalloc uid g)) groups st.
+Definition dev_add (ds : list ddesc) (st : nstate) (node uid : Z) (groups : list (Z * list (Z * (Z * Z)))) : nstate :=
+  fold_left (fun s g => add_pod no_topo s node (dalloc ds uid g)) groups st.
 Definition dev_del (st : nstate) (node uid : Z) (groups : list (Z * list (Z * (Z * Z)))) : nstate :=
   fold_left (fun s g => release no_topo s node (dkey uid (fst g))) groups st.
 
@@ -36,7 +46,7 @@ Record dobj := mkDO { do_uid : Z; do_node : Z; do_term : bool; do_groups : list 
 
 Definition dh_delete (st : nstate) (o : dobj) : nstate :=
   if do_node o =? 0 then st else dev_del st (do_node o) (do_uid o) (do_groups o).
-Definition dh_update (st : nstate) (old : option dobj) (o : dobj) : nstate :=
+Definition dh_update (ds : list ddesc) (st : nstate) (old : option dobj) (o : dobj) : nstate :=
   if do_node o =? 0 then
     match old with Some od => if do_node od =? 0 then st else dh_delete st od | None => st end
   else if do_term o then dh_delete st o
@@ -48,7 +58,7 @@ Definition dh_update (st : nstate) (old : option dobj) (o : dobj) : nstate :=
                  | Some od => if do_node od =? 0 then st else dev_del st (do_node o) (do_uid o) (do_groups od)
                  | None => st
                  end in
-      dev_add st1 (do_node o) (do_uid o) (do_groups o).
+      dev_add ds st1 (do_node o) (do_uid o) (do_groups o).
 
 Definition dbound (ds : list ddesc) (uid : Z) (term : bool) : dobj :=
   let d := ddesc_of ds uid in mkDO uid (dd_node d) term (dd_groups d).
@@ -68,16 +78,16 @@ Definition dlive_step (ds : list ddesc) (l : dlive) (op : Z * Z) : dlive :=
   let d := ddesc_of ds uid in
   let s := dl_life l uid in
   let st := dl_st l in
-  if (k =? 1) && (s =? 0) then mkDL (dev_add st (dd_node d) uid (dd_groups d)) (upd1 (dl_life l) uid 1)
+  if (k =? 1) && (s =? 0) then mkDL (dev_add ds st (dd_node d) uid (dd_groups d)) (upd1 (dl_life l) uid 1)
   else if (k =? 2) && (s =? 1) then mkDL (dev_del st (dd_node d) uid (dd_groups d)) (upd1 (dl_life l) uid 0)
   else if (k =? 3) && (s =? 1) then
-    mkDL (dh_update st (Some (dpending uid)) (dbound ds uid false)) (upd1 (dl_life l) uid 2)
+    mkDL (dh_update ds st (Some (dpending uid)) (dbound ds uid false)) (upd1 (dl_life l) uid 2)
   else if (k =? 4) && ((s =? 2) || (s =? 4)) then
     mkDL (dh_delete st (dbound ds uid (s =? 4))) (upd1 (dl_life l) uid 3)
   else if (k =? 5) && (s =? 2) then
-    mkDL (dh_update st (Some (dbound ds uid false)) (dbound ds uid false)) (dl_life l)
+    mkDL (dh_update ds st (Some (dbound ds uid false)) (dbound ds uid false)) (dl_life l)
   else if (k =? 7) && (s =? 2) then
-    mkDL (dh_update st (Some (dbound ds uid false)) (dbound ds uid true)) (upd1 (dl_life l) uid 4)
+    mkDL (dh_update ds st (Some (dbound ds uid false)) (dbound ds uid true)) (upd1 (dl_life l) uid 4)
   else l.
 
 (* fresh scheduler: 1 Add 2 Update(obj,obj) 3 Update(pending,obj); 4 = the Device object of a node
@@ -90,9 +100,9 @@ Definition dreplay_step (ds : list ddesc) (life : Z -> Z) (f : dfresh) (ev : Z *
   else match dobj_of ds life id with
        | None => f
        | Some o =>
-         if k =? 1 then mkDF (dh_update (df_st f) None o) (upd1 (df_seen f) id true)
-         else if k =? 2 then mkDF (dh_update (df_st f) (Some o) o) (df_seen f)
-         else if k =? 3 then mkDF (dh_update (df_st f) (Some (dpending id)) o) (df_seen f)
+         if k =? 1 then mkDF (dh_update ds (df_st f) None o) (upd1 (df_seen f) id true)
+         else if k =? 2 then mkDF (dh_update ds (df_st f) (Some o) o) (df_seen f)
+         else if k =? 3 then mkDF (dh_update ds (df_st f) (Some (dpending id)) o) (df_seen f)
          else f
        end.
 Definition dcompletion (ds : list ddesc) (f : dfresh) : list (Z * Z) :=
@@ -103,13 +113,14 @@ Definition dreplay (ds : list ddesc) (life : Z -> Z) (script : list (Z * Z)) : n
 
 (* the node's devices: [minors] devices of each of the two types, each with total (ta, tb) *)
 Record dcase := mkDCase {
-  d_nodes : Z; d_minors : Z; d_tot1 : Z * Z; d_tot2 : Z * Z; d_dev_first : bool;
+  d_nodes : Z; d_minors : Z; d_tot1 : Z * Z; d_tot2 : Z * Z; d_dev_first : bool; d_nvf : Z;
   d_descs : list ddesc; d_ops : list (Z * Z); d_script : list (Z * Z) }.
 
 Definition dtotal (c : dcase) (t : Z) : Z * Z := if t =? 1 then d_tot1 c else d_tot2 c.
 
-(* per node: per type 1..2 per minor: used, free; then per uid per type: the allocateSet entry *)
-Record dsnap := mkDSnap { ds_devs : list ((Z * Z) * (Z * Z)); ds_aset : list (option (list (Z * (Z * Z)))) }.
+(* per node: per type 1..2 per minor: used, free; then per uid per type: the allocateSet entry; then
+   per type per minor per VF index 0..nvf-1: is the virtual function taken (vfAllocations) *)
+Record dsnap := mkDSnap { ds_devs : list ((Z * Z) * (Z * Z)); ds_aset : list (option (list (Z * (Z * Z)))); ds_vfs : list Z }.
 Definition types12 : list Z := [1; 2].
 Definition dsnap_node (c : dcase) (st : nstate) (node : Z) : dsnap :=
   mkDSnap
@@ -117,7 +128,10 @@ Definition dsnap_node (c : dcase) (st : nstate) (node : Z) : dsnap :=
                             (zrange 0 (Z.to_nat (d_minors c)))) types12)
     (flat_map (fun uid => map (fun t => option_map (fun p => map (fun e => (fst e - t * 1000, snd e)) (pa_numa p))
                                                    (find_pod (ns_pods st) node (dkey uid t))) types12)
-              (zrange 1 (length (d_descs c)))).
+              (zrange 1 (length (d_descs c))))
+    (flat_map (fun t => flat_map (fun m => map (fun i => if 0 <? ns_ref st node (gvf t (m * 100 + i)) then 1 else 0)
+                                               (zrange 0 (Z.to_nat (d_nvf c))))
+                                 (zrange 0 (Z.to_nat (d_minors c)))) types12).
 Definition dsnapshot (c : dcase) (st : nstate) : list dsnap :=
   map (dsnap_node c st) (zrange 1 (Z.to_nat (d_nodes c))).
 
@@ -139,6 +153,6 @@ Definition enc_aset (o : option (list (Z * (Z * Z)))) : list Z :=
   match o with None => [0] | Some l => 1 :: enc_numa l end.
 Definition enc_dsnap (s : dsnap) : list Z :=
   flat_map (fun e => [fst (fst e); snd (fst e); fst (snd e); snd (snd e)]) (ds_devs s)
-  ++ flat_map enc_aset (ds_aset s).
+  ++ flat_map enc_aset (ds_aset s) ++ ds_vfs s.
 Definition enc_drun (r : list (list dsnap * list dsnap)) : list Z :=
   flat_map (fun p => flat_map enc_dsnap (fst p) ++ flat_map enc_dsnap (snd p)) r.
